@@ -76,8 +76,15 @@ func genC15(t *rapid.T) *C15Case {
 	// families of similar command names so that a typo can be equally close to several
 	if rapid.IntRange(0, 2).Draw(t, "similarNames") == 0 {
 		fam := rapid.SampledFrom([][]string{{"pull", "push", "purl"}, {"start", "stark", "stare"}, {"list", "lint", "lisp"}}).Draw(t, "family")
+		asAliases := rapid.Bool().Draw(t, "familyAsAliases")
 		d.EachCmd(func(cm *Cmd, _ []*Cmd) {
 			if len(cm.Cmds) >= 2 && len(cm.Cmds) <= 3 {
+				if asAliases {
+					// the similar words are aliases; the names proper are far away
+					cm.Cmds[0].Aliases = []string{fam[0], fam[1]}
+					cm.Cmds[1].Aliases = []string{fam[2]}
+					return
+				}
 				for i := range cm.Cmds {
 					cm.Cmds[i].Name = fam[i]
 					cm.Cmds[i].Aliases = nil
@@ -92,7 +99,11 @@ func genC15(t *rapid.T) *C15Case {
 		var words []string
 		for len(cur.Cmds) > 0 && cur.Pos == nil {
 			if len(cur.Cmds) >= 2 && !cur.SubOpt && rapid.Bool().Draw(t, "stopForTypo") {
-				nm := []rune(cur.Cmds[rapid.IntRange(0, len(cur.Cmds)-1).Draw(t, "typoOf")].Name)
+				var words0 []string
+				for _, sc := range cur.Cmds {
+					words0 = append(append(words0, sc.Name), sc.Aliases...)
+				}
+				nm := []rune(rapid.SampledFrom(words0).Draw(t, "typoOf"))
 				i := rapid.IntRange(0, len(nm)-1).Draw(t, "typoAt")
 				nm[i] = rapid.SampledFrom([]rune("abdlmrstzhknp")).Draw(t, "typoRune")
 				words = append(words, string(nm))
